@@ -153,7 +153,7 @@ func (p *Prog) ErrFate(call ssa.CallInstruction, noReturn func(string) bool) Fat
 		same := false
 		for _, ret := range Returns(fn) {
 			if outIdx >= 0 && outIdx < len(ret.Results) {
-				for _, r := range ResolveAll(ret.Results[outIdx]) {
+				for _, r := range Sources(RetVal(ret, outIdx)) {
 					if isErr[r] {
 						same = true
 					}
